@@ -945,5 +945,6 @@ int main(int argc, char **argv)
     adapt_fcppt_ranges();
   });
   c18::register_grid_shards();
+  c18::register_protocol_shards();
   return vrt::run(argc, argv);
 }
